@@ -74,6 +74,7 @@ type FuncContract struct {
 	NoPanic    bool
 	HoldsRead  map[string]bool // subset of Holds held in read mode only
 	MayPanic   bool
+	NoOverflow bool // every integer product computed by the function (inlined helpers included) fits in 64 bits: obligation
 	Trusted    bool
 	Pure       bool
 	ParamNames []string // for iface / functype contracts
@@ -151,7 +152,7 @@ type Contracts struct {
 	Nclause    int
 }
 
-var keywordRe = regexp.MustCompile(`^(spec|pred|axiom|lemma|theorem|globalinv|stablekeys|type|func|iface|functype|extern|props|atomic|holds_read|holds|at_call|after_call|requires|ensures|ensures_panic|ghost_ensures|modifies|loop|assume|nopanic|maypanic|trusted|pure|readsclock|noaxioms|onlyaxioms|wiring|params|immutable|stable|guards|sink|protects|guarded_by|ghost|lockinv|extsync|mutators|readers|insert_only|setup|shared|inv|strings|noinline)\b`)
+var keywordRe = regexp.MustCompile(`^(spec|pred|axiom|lemma|theorem|globalinv|stablekeys|type|func|iface|functype|extern|props|atomic|holds_read|holds|at_call|after_call|requires|ensures|ensures_panic|ghost_ensures|modifies|loop|assume|nopanic|maypanic|trusted|pure|readsclock|noaxioms|onlyaxioms|wiring|params|immutable|stable|guards|sink|protects|guarded_by|ghost|lockinv|extsync|mutators|readers|insert_only|setup|shared|inv|strings|noinline|nooverflow)\b`)
 
 var labelRe = regexp.MustCompile(`^([A-Za-z_][A-Za-z_0-9]*):([^:]|$)`)
 var propsRe = regexp.MustCompile(`^\{([A-Z0-9, ]+)\}\s*`)
@@ -197,7 +198,7 @@ func (cs *Contracts) LoadContractFile(path, pkg string) error {
 			// without arguments it can only be a misspelt keyword, which would silently drop the rest of the block
 			prev := lines[len(lines)-1].text
 			switch keywordRe.FindString(prev) {
-			case "type", "func", "extern", "iface", "functype", "trusted", "nopanic", "maypanic", "shared", "extsync", "strings", "readsclock", "pure", "noinline":
+			case "type", "func", "extern", "iface", "functype", "trusted", "nopanic", "maypanic", "shared", "extsync", "strings", "readsclock", "pure", "noinline", "nooverflow":
 				return fmt.Errorf("%s:%d: unknown keyword in %q (after %q)", path, n, t, prev)
 			}
 			lines[len(lines)-1].text += " " + t
@@ -485,6 +486,8 @@ func (cs *Contracts) LoadContractFile(path, pkg string) error {
 				curF.HoldsRead[rest] = true
 			case "nopanic":
 				curF.NoPanic = true
+			case "nooverflow":
+				curF.NoOverflow = true
 			case "maypanic":
 				curF.MayPanic = true
 			case "trusted":
